@@ -246,7 +246,8 @@ func runC19(r *ev.Run) {
 		}
 	}
 	classes := universe.ThreeMan()
-	classes = append(classes, parseClasses(seedPick(evalClasses, r.Seed+2, ev.Pick(r, 2, 10)))...)
+	// the classes with an evaluation branch of their own are always in, the others rotate with the seed
+	classes = append(classes, parseClasses(uniqStrings(append(append([]string(nil), evalSpecialClasses...), seedPick(evalClasses, r.Seed+2, ev.Pick(r, 2, 10))...)))...)
 	r.Set("classes", classNames(classes))
 	var sc atomic.Int64
 	forClasses(r, classes, universe.Opts{NoRights: true, NoEP: true}, newW, func(w *worker, p *refchess.Pos) {
